@@ -31,7 +31,8 @@ def run(run):
     run.bounds["_bio_consert glue [S] (n, departures)"] = kinit
     run.pmap("bk.init_score_check", bk.init_score_check, kinit)
     items = sweep.make_items(run, CFGS, ["starts"], flags=(False, True) if run.thorough else (False,), light=heavy, heavy=heavy)
-    run.pmap("sweep.run_item", sweep.run_item, items, chunksize=1)
+    items += sweep.history_items(run, CFGS[:3], ["starts"], 6 if run.thorough else 2, flags=(False,))
+    run.pmap("sweep.run_item", sweep.run_item, sweep.order_items(items), chunksize=1)
     run.extra["work_items"] = len(items)
     run.extra["stubs"] = sweep.install()
 
